@@ -37,8 +37,8 @@
 #define SBCAP 32
 
 enum { K_BOOL, K_INT, K_FLOAT, K_DOUBLE, K_PTR, K_FLAG, K_SPIN, K_TICKET, K_TSTACK, K_LDOUBLE };
-enum { S_RANDOM, S_PCT, S_TARGET, S_STALL, S_SERIAL, S_REPLAY, NSTRAT };
-static const char *stratname[] = {"random", "pct", "targeted", "stall", "serial", "replay"};
+enum { S_RANDOM, S_PCT, S_TARGET, S_STALL, S_SERIAL, S_REPLAY, S_STARVE, NSTRAT };
+static const char *stratname[] = {"random", "pct", "targeted", "stall", "serial", "replay", "starve"};
 enum { C_OK, C_NONLIN, C_LIVELOCK, C_NEIGHBOUR, C_CRASH };
 static const char *clsname[] = {"ok", "not-linearizable", "livelock", "neighbour-clobbered", "crash"};
 
@@ -52,6 +52,7 @@ typedef struct {
   POp ops[MAXT][MAXOPS];
   int strategy, p_den, pct_d, stall_t, stall_k, stall_len;
   uint64_t sched_seed;
+  int cap;            // contended steps before the fair drain phase (0 = CONTENDED_CAP); part of the plan, so that a replay has it too
   int mix;            // threads alternate between the default and the -fPIC build: the same object operated on from two object files
   int tso, flush_den; // store-buffer model on/off; a buffered store becomes visible at a decision point with probability 1/flush_den
   int nfl;
@@ -177,6 +178,7 @@ static unsigned stamp;
 static int phase, quantum, samerun, verbose;
 static int prio[MAXT], pct_cp[4], pct_low;
 static int stalled_until; // step at which the stalled thread may run again (S_STALL)
+static int starve_budget; // S_STARVE: locked instructions the aggressor may still execute before the victim gets its turn
 static int pre_used[MAXPRE];
 static sigjmp_buf crash_jb;
 static void *objaddr[MAXOBJ];
@@ -271,6 +273,22 @@ static int choose(char kind) {
     for (int t = 0; t < P->nthreads; t++)
       if (!done[t] && !blocked[t] && (best < 0 || prio[t] > prio[best])) best = t;
     return best;
+  }
+  case S_STARVE: {
+    // starvation: whenever a victim (every thread but the last) is about to execute a locked instruction or a plain store to
+    // shared memory, the aggressor (the last thread, which runs a long series of successful updates) gets one update in
+    // first. A victim's compare-exchange loop thus fails as many times in a row as the aggressor has updates left.
+    int agg = P->nthreads - 1;
+    int agg_ok = !done[agg] && !blocked[agg];
+    if (me != agg) {
+      if (me_ok && agg_ok && (kind == 'A' || kind == 'S')) { starve_budget = 0; return agg; } // (the aggressor resumes INTO the locked instruction it was about to execute: that is its one update)
+      return me_ok ? me : nth_runnable(0);
+    }
+    if (kind == 'A' || kind == 'E' || !me_ok) {
+      if (starve_budget > 0 && me_ok) { starve_budget--; return me; }
+      for (int t = 0; t < agg; t++) if (!done[t] && !blocked[t]) return t;
+    }
+    return me_ok ? me : nth_runnable(0);
   }
   case S_STALL: {
     int v = P->stall_t % P->nthreads;
@@ -376,9 +394,9 @@ static void decision(long site, char kind) {
     for (int t = 0; t < P->nthreads; t++)
       if (t != me && pending_window[t] && inflight[t] == inflight[me]) { R->conflict_windows++; pending_window[t] = 0; }
   if (verbose) printf("  step %ld: thread %d at %s\n", R->steps, me, site_text(site));
-  if (phase == 0 && R->steps > CONTENDED_CAP) { phase = 1; quantum = 0; R->drained = 1; if (tso_on) { sb_drain_all(); tso_on = 0; } }
+  if (phase == 0 && R->steps > (P->cap ? P->cap : CONTENDED_CAP)) { phase = 1; quantum = 0; R->drained = 1; if (tso_on) { sb_drain_all(); tso_on = 0; } }
   if (tso_on) sb_schedule(me);
-  if (phase == 1 && R->steps > CONTENDED_CAP + DRAIN_CAP) {
+  if (phase == 1 && R->steps > (P->cap ? P->cap : CONTENDED_CAP) + DRAIN_CAP) {
     static char why[300];
     snprintf(why, sizeof why, "threads still running after %d contended + %d fair steps; thread %d last at %s", CONTENDED_CAP,
              DRAIN_CAP, me, site_text(site));
@@ -418,14 +436,14 @@ void sim_access_c(long imm, unsigned char *addr) {
   if (cur < 0) return;
   long site = imm & 0xffffff;
   int size = (int)(imm >> 24) & 31, store = (int)(imm >> 30) & 1;
-  decision(site, store ? 'S' : 'L');
+  // private memory: the thread's own stack, except an automatic object it has published
+  int priv = addr >= (unsigned char *)stacks[cur] && addr < (unsigned char *)stacks[cur] + STACKSZ;
+  if (priv && P->obj[0].local && objaddr[0] && addr < (unsigned char *)objaddr[0] + P->obj[0].size && (unsigned char *)objaddr[0] < addr + size) priv = 0;
+  decision(site, store ? (priv ? 'p' : 'S') : 'L');
   int me = cur;
   if (!tso_on) return;
   if (store) {
-    // private memory (the thread's own stack, except an automatic object it has published) is not buffered: nobody else
-    // looks at it, and the harness reuses it between operations
-    int priv = addr >= (unsigned char *)stacks[me] && addr < (unsigned char *)stacks[me] + STACKSZ;
-    if (priv && P->obj[0].local && objaddr[0] && addr < (unsigned char *)objaddr[0] + P->obj[0].size && (unsigned char *)objaddr[0] < addr + size) priv = 0;
+    // private stores are not buffered: nobody else looks at that memory, and the harness reuses it between operations
     if (priv) return;
     sb_pend[me].active = 1;
     sb_pend[me].addr = addr;
@@ -763,6 +781,7 @@ static void run_plan(const Plan *p, Result *r) {
   stamp = 0;
   phase = quantum = samerun = 0;
   stalled_until = 0;
+  starve_budget = 0;
   memset(pre_used, 0, sizeof(int) * (p->npre < MAXPRE ? p->npre : MAXPRE));
   memset(fl_used, 0, sizeof(int) * (p->nfl < MAXFL ? p->nfl : MAXFL));
   r->nfl = 0;
@@ -884,9 +903,44 @@ static int usable_in_group(int g, unsigned clsmask) { return usable_in_group2(g,
 
 static int maxops_env = 5, maxt_env = MAXT;
 
+static int gen_starve(Plan *p) {
+  int storms[64], ns = 0;
+  for (int c = 0; c < noptable && ns < 64; c++)
+    if (!excluded[c] && !strcmp(optable[c].opname, "storm")) storms[ns++] = c;
+  if (!ns) return -1;
+  int st = storms[below(ns)], g = optable[st].group;
+  int voids[16], nv = 0;
+  for (int i = 0; i < group_n[g] && nv < 16; i++) {
+    int c = group_ops[group_first[g] + i];
+    const char *n = optable[c].opname;
+    if (!excluded[c] && optable[c].storage == optable[st].storage && (!strcmp(n, "add_void") || !strcmp(n, "inc_void") || !strcmp(n, "fadd_void") || !strcmp(n, "dec_for"))) voids[nv++] = c;
+  }
+  if (!nv) return -1;
+  p->build = below(2);
+  p->nthreads = 2 + (below(3) == 0);
+  p->nobj = 1;
+  p->obj[0].group = g;
+  p->obj[0].size = optable[st].objsize;
+  p->obj[0].adjacent = below(2);
+  gen_init(&p->obj[0], tkind_of(&optable[st]), optable[st].objsize, 0);
+  for (int t = 0; t < p->nthreads - 1; t++) {
+    p->nops[t] = 1 + below(2);
+    for (int k = 0; k < p->nops[t]; k++) { POp *o = &p->ops[t][k]; o->op = voids[below(nv)]; o->obj = 0; o->a = 1 + below(9); o->b = 0; }
+  }
+  int a = p->nthreads - 1;
+  p->nops[a] = 1;
+  p->ops[a][0].op = st; p->ops[a][0].obj = 0; p->ops[a][0].a = 0; p->ops[a][0].b = 0;
+  p->strategy = S_STARVE;
+  p->cap = 25 * CONTENDED_CAP;
+  p->p_den = 2; p->pct_d = 1;
+  p->sched_seed = rnd();
+  return 0;
+}
+
 static int gen(Plan *p, uint64_t seed) {
   rs = seed;
   memset(p, 0, offsetof(Plan, pre));
+  if (maxt_env > 1 && below(40) == 0 && gen_starve(p) == 0) return 0; // retry depth: one plan in forty starves its victims
   p->build = below(2);
   int x = below(20);
   p->nthreads = x < 1 ? 1 : x < 11 ? 2 : x < 17 ? 3 : 4;
@@ -1005,8 +1059,8 @@ static int gen(Plan *p, uint64_t seed) {
 static void hex(FILE *f, const unsigned char *b, int n) { for (int i = 0; i < n; i++) fprintf(f, "%02x", b[i]); }
 
 static void print_plan(FILE *f, const Plan *p, int with_pre) {
-  fprintf(f, "plan build=%d nthreads=%d nobj=%d strategy=%s p_den=%d pct_d=%d stall=%d,%d,%d sched_seed=%llu tso=%d,%d mix=%d\n", p->build, p->nthreads,
-          p->nobj, stratname[p->strategy], p->p_den, p->pct_d, p->stall_t, p->stall_k, p->stall_len, (unsigned long long)p->sched_seed, p->tso, p->flush_den, p->mix);
+  fprintf(f, "plan build=%d nthreads=%d nobj=%d strategy=%s p_den=%d pct_d=%d stall=%d,%d,%d sched_seed=%llu tso=%d,%d mix=%d cap=%d\n", p->build, p->nthreads,
+          p->nobj, stratname[p->strategy], p->p_den, p->pct_d, p->stall_t, p->stall_k, p->stall_len, (unsigned long long)p->sched_seed, p->tso, p->flush_den, p->mix, p->cap);
   for (int j = 0; j < p->nobj; j++) {
     const struct opinfo *o = &optable[group_ops[group_first[p->obj[j].group]]];
     fprintf(f, "obj %d %s size=%d adjacent=%d local=%d init=", j, o->name, p->obj[j].size, p->obj[j].adjacent, p->obj[j].local);
@@ -1031,8 +1085,8 @@ static int read_plan(FILE *f, Plan *p) {
     if (!strncmp(line, "plan ", 5)) {
       unsigned long long ss = 0;
       char st[32] = "";
-      sscanf(line, "plan build=%d nthreads=%d nobj=%d strategy=%31s p_den=%d pct_d=%d stall=%d,%d,%d sched_seed=%llu tso=%d,%d mix=%d", &p->build,
-             &p->nthreads, &p->nobj, st, &p->p_den, &p->pct_d, &p->stall_t, &p->stall_k, &p->stall_len, &ss, &p->tso, &p->flush_den, &p->mix);
+      sscanf(line, "plan build=%d nthreads=%d nobj=%d strategy=%31s p_den=%d pct_d=%d stall=%d,%d,%d sched_seed=%llu tso=%d,%d mix=%d cap=%d", &p->build,
+             &p->nthreads, &p->nobj, st, &p->p_den, &p->pct_d, &p->stall_t, &p->stall_k, &p->stall_len, &ss, &p->tso, &p->flush_den, &p->mix, &p->cap);
       p->sched_seed = ss;
       p->strategy = S_REPLAY;
       for (int i = 0; i < NSTRAT; i++) if (!strcmp(st, stratname[i])) p->strategy = i;
@@ -1273,8 +1327,8 @@ static int report_failure(uint64_t seed, Plan *p, Result *r, int do_min) {
   for (int t = 0; t < p->nthreads; t++) ops0 += p->nops[t];
   mini_execs = 0;
   p2 = *p;
-  if (do_min) minimise(&p2, r, cls);
-  else to_replay(&p2, r);
+  if (do_min && p->strategy != S_STARVE) minimise(&p2, r, cls);
+  else to_replay(&p2, r); // (a starvation schedule is hundreds of forced alternations: it is replayed as recorded)
   run_plan(&p2, &r2);
   if (r2.cls != cls) { // cannot happen; fall back to the unminimised plan
     p2 = *p;
@@ -1417,7 +1471,7 @@ int main(int argc, char **argv) {
     long first = atol(argv[3]), count = atol(argv[4]);
     long runs = 0, viol = 0, steps = 0, switches = 0, windows = 0, nontriv = 0, msteps = 0, casfail = 0, drained = 0, stallf = 0, pctf = 0,
          ops = 0, minimised = 0, sampled_distinct = 0, tso_plans = 0, mix_plans = 0, sbb = 0, sbf = 0, sbd = 0, sbw = 0, sbfw = 0;
-    long by_strat[NSTRAT] = {0}, by_threads[MAXT + 1] = {0}, by_cls[9] = {0}, by_storage[10] = {0}, by_build[2] = {0}, by_viol[5] = {0};
+    long by_strat[NSTRAT] = {0}, by_threads[MAXT + 1] = {0}, by_cls[10] = {0}, by_storage[10] = {0}, by_build[2] = {0}, by_viol[5] = {0};
     for (long i = first; i < first + count; i++) {
       uint64_t seed = mixseed(master, i);
       if (gen(&p, seed)) continue;
@@ -1447,8 +1501,8 @@ int main(int argc, char **argv) {
            runs, ops, viol, steps, switches, windows, nontriv, msteps, casfail, drained, stallf, pctf);
     for (int s = 0; s < NSTRAT; s++) printf(" strat_%s=%ld", stratname[s], by_strat[s]);
     for (int t = 1; t <= MAXT; t++) printf(" threads_%d=%ld", t, by_threads[t]);
-    static const char *cn[] = {"compound", "incdec", "fetch", "xchg", "cas", "load", "store", "flag", "algo"};
-    for (int c = 0; c < 9; c++) printf(" opclass_%s=%ld", cn[c], by_cls[c]);
+    static const char *cn[] = {"compound", "incdec", "fetch", "xchg", "cas", "load", "store", "flag", "algo", "storm"};
+    for (int c = 0; c < 10; c++) printf(" opclass_%s=%ld", cn[c], by_cls[c]);
     static const char *sn[] = {"ptr", "member", "global", "gmember", "garray", "algo", "nested", "automatic", "tls", "tlsmember"};
     for (int c = 0; c < 10; c++) printf(" storage_%s=%ld", sn[c], by_storage[c]);
     printf(" build_default=%ld build_pic=%ld", by_build[0], by_build[1]);
